@@ -242,7 +242,7 @@ def C01(run):
     for c in (['core3', 'uni3', 'kw4', 'ws4', 'soupfull2', 'souptiny3', 'souplong4'] if quick else ['core4', 'uni4', 'kw5', 'multi5', 'soupfull3', 'soupcore4', 'souptiny4', 'souplong5']):
         tlc_replay(run, 'total-' + c, 'MC_Lex.tla', 'MC_Lex_%s.cfg' % c, 'total', profiles=('debug', 'release'), timeout_ms=5000)
     # totality only: what the verdict is belongs to C02 / C13
-    parser_soup(run, ['full2', 'tiny3', 'lines3', 'else5'] if quick else ['full3', 'core4', 'tiny4', 'stmt5', 'lines4', 'else6'], profiles=('debug', 'release'), family='total')
+    parser_soup(run, ['full2', 'tiny3', 'lines3', 'else4'] if quick else ['full3', 'core4', 'tiny4', 'stmt5', 'lines4', 'else5'], profiles=('debug', 'release'), family='total')
     n = 300 if quick else 5000
     tlc_replay(run, 'total-sim', 'MC_Lex.tla', 'MC_Lex_sim.cfg', 'total', profiles=('debug', 'release'),
                simulate='num=%d' % n, workers=8, timeout_ms=5000)
@@ -649,7 +649,7 @@ def C02(run):
     grammar(run, 'poetic', family='poeticrun')
     # the other direction: texts the grammar did not produce.  The recogniser model assigns each line-fragment soup text a tree or
     # an error line; the real parser must assign the same (accepted texts: exactly the tree).
-    parser_soup(run, ['lines3', 'else5'] if run.tier == 'quick' else ['lines4', 'core4', 'else6'])
+    parser_soup(run, ['lines3', 'else4'] if run.tier == 'quick' else ['lines4', 'core4', 'else5'])
     # ... and real programs: the texts of the program corpus get the recogniser model's verdict
     run.rule += '; the texts of the program corpus (the repository\'s own test programs) get the recogniser model\'s verdict: same tree / same error line'
     corpus_parse(run)
@@ -691,7 +691,7 @@ def C13(run):
     run.assumptions += ['the catalogue is hand-written (context-independent by construction); for soup texts "the line of the offending token" is the recogniser model\'s']
     grammar(run, 'fault', family='fault')
     # beyond the catalogue: every token-soup text; the recogniser model decides acceptance and the error line
-    parser_soup(run, ['full2', 'tiny3', 'core3', 'lines3', 'else5'] if run.tier == 'quick' else ['full3', 'core4', 'tiny4', 'stmt5', 'lines4', 'else6'], env={'VH_REJECT_ONLY': '1'})
+    parser_soup(run, ['full2', 'tiny3', 'core3', 'lines3', 'else4'] if run.tier == 'quick' else ['full3', 'core4', 'tiny4', 'stmt5', 'lines4', 'else5'], env={'VH_REJECT_ONLY': '1'})
     # the corpus holds programs the pinned parser rejects (constructs it does not support): same line as the recogniser model
     corpus_parse(run, env={'VH_REJECT_ONLY': '1'})
 
